@@ -20,7 +20,7 @@ use std::process::Command;
 
 pub struct Fetch;
 const P: &str = "C31";
-pub const N_STATES: usize = 7;
+pub const N_STATES: usize = 9;
 
 #[derive(Clone, Debug, Serialize, Deserialize)]
 pub struct Workload {
@@ -57,7 +57,7 @@ pub const REFSPECS: &[&[&str]] = &[
 pub const FIXTURE_SH: &str = r#"
 set -eu
 dir="$1"; cd "$dir"
-[ -f done-c31 ] && exit 0
+[ -f done-c31v2 ] && exit 0
 export GIT_AUTHOR_NAME=a GIT_AUTHOR_EMAIL=a@e GIT_COMMITTER_NAME=c GIT_COMMITTER_EMAIL=c@e
 export GIT_CONFIG_NOSYSTEM=1 GIT_CONFIG_GLOBAL=/dev/null HOME="$dir"
 t=1700000000
@@ -84,10 +84,14 @@ t=$((t+60)); GIT_COMMITTER_DATE="$t +0000" git tag -f -a -m v1moved v1 >/dev/nul
 git symbolic-ref HEAD refs/heads/feature/x; save 5; git symbolic-ref HEAD refs/heads/main; git checkout -q -f main
 # 6: a new root (unrelated history) force-pushed over main, a branch whose name nests under a former file name
 git checkout -q --orphan fresh; git rm -rfq .; commit r1; commit r2; git branch -q -f main fresh; git checkout -q main; git branch -q -D fresh; git branch feature/x/deeper 2>/dev/null || true; save 6
+# 7: like 6, with a detached HEAD on the server
+save 7; git -C ../state-7 update-ref --no-deref HEAD "$(git rev-parse main~1)"
+# 8: like 6, with an unborn HEAD on the server (HEAD names a branch that does not exist)
+save 8; git -C ../state-8 symbolic-ref HEAD refs/heads/not-yet
 cd ..
 # client template: an empty repository with the remote configured by the harness at run time
 rm -rf client-template; git init -q -b main client-template; git -C client-template config gc.auto 0; git -C client-template config pack.threads 1; git -C client-template config fetch.writeCommitGraph false; git -C client-template config user.name client; git -C client-template config user.email client@example.com
-touch done-c31
+touch done-c31v2
 "#;
 
 fn git(dir: &Path) -> Command {
@@ -315,6 +319,11 @@ impl Fetch {
             let depth = if step == 0 { w.depth } else { 0 };
             let deepen = if step == 1 && w.depth > 0 { w.deepen } else { 0 };
             if w.clone && step == 0 {
+                let head_kind = match st {
+                    7 => "detached",
+                    8 => "unborn",
+                    _ => "branch",
+                };
                 // the twin
                 let mut tc = Command::new("git");
                 tc.env("GIT_CONFIG_NOSYSTEM", "1").env("GIT_CONFIG_GLOBAL", "/dev/null").env_remove("GIT_PROTOCOL").args(["-c", &format!("protocol.version={}", w.version), "-c", "init.defaultBranch=main", "clone", "-q", "--no-checkout"]);
@@ -369,13 +378,13 @@ impl Fetch {
                     let la: Vec<&str> = a.lines().filter(|l| !b.lines().any(|x| x == *l)).take(4).collect();
                     let lb: Vec<&str> = b.lines().filter(|l| !a.lines().any(|x| x == *l)).take(4).collect();
                     let what = la.first().or(lb.first()).map(|l| if l.starts_with("HEAD") { "head" } else if l.starts_with("refs/tags") { "tag" } else if l.starts_with("refs/") { "ref" } else if l.starts_with("shallow") { "shallow" } else { "config" }).unwrap_or("");
-                    rep.violate(P, format!("fetch clone differs-from-git-clone {what} | {shape}"), format!("cloning state {st}: git clone has {la:?}; gitoxide has {lb:?}"));
+                    rep.violate(P, format!("fetch clone differs-from-git-clone {what} head={head_kind} | {shape}"), format!("cloning state {st}: git clone has {la:?}; gitoxide has {lb:?}"));
                     break;
                 }
                 let fsck = git(&cg).args(["fsck", "--connectivity-only", "--no-dangling"]).output().map_err(|e| e.to_string())?;
                 let fsck_text = format!("{}{}", String::from_utf8_lossy(&fsck.stdout), String::from_utf8_lossy(&fsck.stderr));
                 if !fsck.status.success() || fsck_text.contains("missing") || fsck_text.contains("broken") {
-                    rep.violate(P, format!("fetch clone fsck-complains | {shape}"), format!("after cloning state {st}: {}", fsck_text.lines().take(4).collect::<Vec<_>>().join("; ")));
+                    rep.violate(P, format!("fetch clone fsck-complains head={head_kind} | {shape}"), format!("after cloning state {st}: {}", fsck_text.lines().take(4).collect::<Vec<_>>().join("; ")));
                     break;
                 }
                 *rep.probes.entry("cloned-like-git".into()).or_insert(0) += 1;
